@@ -46,7 +46,7 @@ def emit(engine, n, seed):
     elif engine == "c24":
         from checks import c24
         bases = c24.bases_for("quick", seed)
-        for i, b in enumerate(bases[3:3 + n]):
+        for i, b in enumerate(bases[4:4 + n]):
             r = c24.explore({"base": b, "seed": core.h64(seed, "det", i), "tier": "quick"})
             out.append([r["journal"], r["cuts"], r["unique_states"], sorted(json.dumps(f["sig"], sort_keys=True) for f in r["fail"])])
     elif engine == "c26":
